@@ -116,6 +116,9 @@ def build_doc(dialect: str) -> dict:
     for k, (idx, d) in _DEFS.items():
         if d["dialect"] == dialect:
             paths[op_path(d)] = {"get": {"parameters": [param_object(d)], "responses": OK_RESP}}
+            if dialect == "oas3":  # several body variants: the coverage phase derives one case per media type from one template
+                paths[op_path(d)]["get"]["requestBody"] = {"required": False, "content": {
+                    MEDIA["json"]: {"schema": {"type": "integer"}}, MEDIA["text"]: {"schema": {"type": "string"}}}}
     if dialect == "swagger2":
         return {"swagger": "2.0", "info": {"title": "t", "version": "1"}, "paths": paths}
     simple = {"name": NAME, "in": "path", "required": True, "schema": {"type": "string"}}
@@ -266,6 +269,22 @@ def pipeline_coverage(op, loc: str, value):
     return dict(t.unmodified().kwargs)
 
 
+SECOND_BODY = {"k": "prim", "items": [{"t": "str", "s": [116], "n": 0}], "keys": []}   # the text/plain variant's payload: "t"
+
+
+def pipeline_coverage_again(op, loc: str, value):
+    """What `_iter_coverage_cases` does for an operation with several body media types: one template, `with_body` per media type.
+    Returns the kwargs of the SECOND derived case (the first equals pipeline C plus a body)."""
+    from schemathesis.generation import coverage
+    from schemathesis.generation.hypothesis.builder import Template
+    from schemathesis.specs.openapi.serialization import get_serializers_for_operation
+
+    t = Template(get_serializers_for_operation(op))
+    t.add_parameter(loc, NAME, coverage.GeneratedValue.with_positive(copy.deepcopy(value), description="verif"))
+    t.with_body(media_type=MEDIA["json"], value=coverage.GeneratedValue.with_positive(1, description="verif"))
+    return dict(t.with_body(media_type=MEDIA["text"], value=coverage.GeneratedValue.with_positive("t", description="verif")).kwargs)
+
+
 # ---------------------------------------------------------------------------------------------------------------------
 # sending and recording
 # ---------------------------------------------------------------------------------------------------------------------
@@ -286,9 +305,11 @@ def send(el: dict, kwargs: dict, transport: str, pipe: str) -> dict:
         call_kw["base_url"] = root + BASE_PATH[7]
     d = el["def"]
     loc = d["loc"] if el["kind"] != "body" else "none"
-    o: dict = {"kind": el["kind"], "def": d, "val": el["val"], "media": el["media"], "explicit": pipe == "X",
+    has_body = "body" in kwargs
+    o: dict = {"kind": el["kind"], "def": d, "val": el["val"], "bval": SECOND_BODY if pipe == "C2" else el["val"],
+               "media": "text" if pipe == "C2" else el["media"], "explicit": pipe == "X",
                "wantMethod": op.method.upper(), "basePath": cps(BASE_PATH[el["base"]]), "tmpl": cps(template_of(el)),
-               "wantCtype": cps((case.media_type or "") if el["kind"] == "body" else "")}
+               "wantCtype": cps((case.media_type or "") if has_body else "")}
     try:
         if transport == "requests":
             srv = _server()
@@ -353,6 +374,11 @@ def run_element(el: dict) -> list[dict]:
                 pipes.append(("C", pipeline_coverage(op, loc, value)))
             except Exception as exc:
                 pipes.append(("C", {"__error__": "%s: %s" % (type(exc).__name__, exc)}))
+            if d["dialect"] == "oas3":
+                try:
+                    pipes.append(("C2", pipeline_coverage_again(op, loc, value)))
+                except Exception as exc:
+                    pipes.append(("C2", {"__error__": "%s: %s" % (type(exc).__name__, exc)}))
         # explicit cases carry what the user serialised; only identity styles make the raw string the wire value
         if isinstance(value, str) and d["type"] == "prim" and d["style"] in ("default", "simple", "form"):
             pipes.append(("X", {CONTAINER[loc]: {NAME: value}}))
@@ -696,6 +722,10 @@ def typed_json(t: str):
         return None
 
 
+def py_coerce(p: dict) -> str:
+    return text(p["s"]) if p["t"] == "str" else str(p["n"]) if p["t"] == "int" else ("true" if p["n"] else "false") if p["t"] == "bool" else "null"
+
+
 def want_of(el_want: dict):
     return el_want["k"], tuple(text(t) for t in el_want["items"]), tuple(text(k) for k in el_want["keys"])
 
@@ -776,6 +806,10 @@ STANDARD = {"host", "user-agent", "accept", "accept-encoding", "connection", "co
 
 
 def py_judge(o: dict, fragment: str, want: dict) -> dict:
+    # '/', '{', '}' in a path value: outside the fragment only for explicit cases and for an already decoded path (WSGI)
+    if (o["kind"] != "body" and o["def"]["loc"] == "path" and (o["explicit"] or o["pmode"] == "dec")
+            and any(c in (47, 123, 125) for t in list(want["items"]) + list(want["keys"]) for c in t)):
+        fragment = "unsendable-path-value"
     want_segs = [s for s in split(o["basePath"], 47) if s] + split(o["tmpl"], 47)[1:]
     got_segs = split(o["path"], 47)[1:]
     var = cps("{p}")
@@ -801,6 +835,8 @@ def py_judge(o: dict, fragment: str, want: dict) -> dict:
     hdrs = "T" if all(h in allowed for h in o["hnames"]) else "F"
     conf = "T" if all(c["present"] and c["got"] == c["want"] for c in o["conf"]) else "F"
     media = o["media"]
+    bval = o.get("bval", o["val"])
+    bwant = (bval["k"], tuple(py_coerce(x) for x in bval["items"]), tuple(text(k) for k in bval["keys"]))
     bt = txt(o["body"], "dec")
     multipart = media in ("multipart", "multipart-file")
     if multipart:
@@ -809,16 +845,16 @@ def py_judge(o: dict, fragment: str, want: dict) -> dict:
         body = "T" if not o["body"] else "F"
     elif media == "json":
         j = typed_json(bt) if bt is not None else None
-        body = "T" if j is not None and same_typed(j, typed(o["val"])) else "F"
+        body = "T" if j is not None and same_typed(j, typed(bval)) else "F"
     elif media == "form":
-        if any(x["t"] in ("bool", "null") for x in o["val"]["items"]):
+        if any(x["t"] in ("bool", "null") for x in bval["items"]):
             body = "U"
         else:
             kv = q_parts(o["body"])
             ks, vs = dec_all([a for a, _, _ in kv], "form"), dec_all([b for _, b, _ in kv], "form")
-            body = "T" if ks is not None and vs is not None and same(("obj", tuple(vs), tuple(ks)), want_of(want)) else "F"
+            body = "T" if ks is not None and vs is not None and same(("obj", tuple(vs), tuple(ks)), bwant) else "F"
     else:
-        body = "T" if bt is not None and bt == want_of(want)[1][0] else "F"
+        body = "T" if bt is not None and bt == bwant[1][0] else "F"
     return {"url": url, "param": pv, "why": why, "extra": extra, "hdrs": hdrs, "conf": conf,
             "id": "T" if o["gotId"] == o["wantId"] and o["wantId"] else "F",
             "host": "T" if o["gotHost"] == o["wantHost"] else "F",
@@ -957,7 +993,8 @@ def judge(ctx: Ctx, observations: list[dict], name: str = "obs.json"):
     defs, vals, ctxs, cores, envs = _Table(), _Table(), _Table(), _Table(), _Table()
     idx = []
     for o in observations:
-        core = {"c": ctxs.add({k: o[k] for k in CTX_FIELDS}), "d": defs.add(o["def"]), "v": vals.add(o["val"])}
+        core = {"c": ctxs.add({k: o[k] for k in CTX_FIELDS}), "d": defs.add(o["def"]), "v": vals.add(o["val"]),
+                "bv": vals.add(o.get("bval", o["val"]))}
         core.update({k: o[src] for k, src in CORE_FIELDS.items()})
         env = {k: o[k] for k in ENV_FIELDS}
         env["loc"] = o["def"]["loc"] if o["kind"] != "body" else "none"
@@ -971,6 +1008,56 @@ def judge(ctx: Ctx, observations: list[dict], name: str = "obs.json"):
     if len(vc) != len(cores.rows) or len(ve) != len(envs.rows):
         raise tlc.TLCFailure("WireJudge judged %d/%d core and %d/%d envelope entries" % (len(vc), len(cores.rows), len(ve), len(envs.rows)))
     return [{**vc[c], **ve[e]} for c, e in idx], res, len(cores.rows) + len(envs.rows)
+
+
+def emit(out: Outcome, cases: list[dict], results: list, fails: list[dict], judged: list[tuple], judged_tr: dict, literal_pipe: str = "") -> None:
+    """Violations with collapsed signatures for `fails`; `judged` = [(element, pipeline, verdict record)] is the universe of what was judged."""
+    attribute(fails)
+    # one violation per (element, pipeline, aspect); the failing transports are part of the signature
+    grouped: dict[tuple, list[dict]] = {}
+    for f in fails:
+        grouped.setdefault((f["ci"], f["pipe"], f["aspect_full"], f["feature"]), []).append(f)
+    pending = []
+    for (ci, pipe, aspect, feature), fs in grouped.items():
+        trs = sorted({f["transport"] for f in fs})
+        # transports on which this aspect got a definite verdict (a transport where it is outside the fragment is neither pass nor fail)
+        ran = sorted(judged_tr.get((ci, pipe, aspect.split(":")[0])) or {r["transport"] for r in results[ci] if r.get("pipe") == pipe and "transport" in r})
+        rest = [t for t in ran if t != "requests"]
+        tr = "all" if trs == ran or trs == ["-"] else "not-requests" if trs == rest and len(rest) > 1 else "+".join(trs)
+        group, dims = site_parts(cases[ci], pipe, aspect)
+        pending.append((group, feature, tr, dims, ci, pipe, aspect, trs, fs[0]))
+    # universe of judged descriptor dimensions per (group, feature): where the same feature was judged at all
+    judged_dims: dict[str, list[tuple]] = {}
+    for el, jpipe, v in judged:
+        ft = value_features(el["val"])
+        for a in ASPECTS:
+            if v[a] == "T" or v[a].startswith("F"):
+                g, dims = site_parts(el, jpipe, a + (v[a][1:] if a == "url" and v[a] != "T" else ""))
+                judged_dims.setdefault("body" if el["kind"] == "body" else "req", []).append((dims, ft))
+    by_key: dict[tuple, set] = {}
+    for group, feature, tr, dims, *_ in pending:
+        by_key.setdefault((group, feature, tr), set()).add(dims)
+    labels: dict[tuple, dict] = {}
+    for (group, feature, tr), failing in by_key.items():
+        need = set() if feature == "any-value" else set(feature.split("+"))
+        universe = {dims for dims, ft in judged_dims.get("body" if group.endswith(":body") else "req", []) if need <= ft}
+        labels[(group, feature, tr)] = collapse(failing, universe)
+    for group, feature, tr, dims, ci, pipe, aspect, trs, f0 in sorted(pending, key=lambda x: (x[0], x[1], x[2], x[3], x[4])):
+        el = cases[ci]
+        wire = ""
+        if "obs" in f0:
+            ob = f0["obs"]
+            wire = "%s %s%s hdr=%r cookie=%r body=%r" % (ob["method"], text(ob["path"]), ("?" + text(ob["query"])) if ob["query"] else "",
+                                                        text(ob["hval"]), text(ob["cookie"]), bytes(ob["body"])[:60])
+        label = labels[(group, feature, tr)][dims]
+        if literal_pipe and label.startswith("*:"):
+            label = literal_pipe + label[1:]
+        out.violations.append(Violation(
+            "C06:%s:%s:%s:%s" % (group, label, feature, tr),
+            "%s not as the case says (%s): %s value %r -> case %s -> wire [%s] on %s" % (
+                aspect, f0["detail"], ":".join(dims), value_py(el["val"]), f0.get("kwargs", ""), wire, ",".join(trs)),
+            {"element": el, "pipe": pipe, "aspect": aspect.split(":")[0], "transports": trs},
+        ))
 
 
 def run(ctx: Ctx) -> Outcome:
@@ -1040,49 +1127,19 @@ def run(ctx: Ctx) -> Outcome:
                               "transport": r["transport"],
                               "detail": (v["why"] if a == "param" else v[a]), "site": site_of(el, r["pipe"], a + (v[a][1:] if a == "url" else "")),
                               "features": value_features(el["val"]), "obs": r["obs"], "kwargs": r["kwargs"]})
-    attribute(fails)
-    # one violation per (element, pipeline, aspect); the failing transports are part of the signature
-    grouped: dict[tuple, list[dict]] = {}
-    for f in fails:
-        grouped.setdefault((f["ci"], f["pipe"], f["aspect_full"], f["feature"]), []).append(f)
-    pending = []
-    for (ci, pipe, aspect, feature), fs in grouped.items():
-        trs = sorted({f["transport"] for f in fs})
-        ran = sorted({r["transport"] for r in results[ci] if r.get("pipe") == pipe and "transport" in r})
-        rest = [t for t in ran if t != "requests"]
-        tr = "all" if trs == ran or trs == ["-"] else "not-requests" if trs == rest and len(rest) > 1 else "+".join(trs)
-        group, dims = site_parts(cases[ci], pipe, aspect)
-        pending.append((group, feature, tr, dims, ci, pipe, aspect, trs, fs[0]))
-    # universe of judged descriptor dimensions per (group, feature): where the same feature was judged at all
-    judged_dims: dict[str, list[tuple]] = {}
+    # every case derived from one coverage template must decode, not only the first: the second derivation (C2) is reported where
+    # the first (C) is fine; where both fail alike the finding is the first one's
+    c_verdict = {(ci, r["transport"]): v for (ci, r), v in zip(flat, verdicts) if r["pipe"] == "C"}
+    main = [f for f in fails if f["pipe"] != "C2"]
+    again = [f for f in fails if f["pipe"] == "C2" and c_verdict.get((f["ci"], f["transport"]), {}).get(f["aspect"]) == "T"]
+    judged_tr: dict[tuple, set] = {}
     for (ci, r), v in zip(flat, verdicts):
-        el = cases[ci]
-        ft = value_features(el["val"])
         for a in ASPECTS:
             if v[a] == "T" or v[a].startswith("F"):
-                g, dims = site_parts(el, r["pipe"], a + (v[a][1:] if a == "url" and v[a] != "T" else ""))
-                judged_dims.setdefault("body" if el["kind"] == "body" else "req", []).append((dims, ft))
-    by_key: dict[tuple, set] = {}
-    for group, feature, tr, dims, *_ in pending:
-        by_key.setdefault((group, feature, tr), set()).add(dims)
-    labels: dict[tuple, dict] = {}
-    for (group, feature, tr), failing in by_key.items():
-        need = set() if feature == "any-value" else set(feature.split("+"))
-        universe = {dims for dims, ft in judged_dims.get("body" if group.endswith(":body") else "req", []) if need <= ft}
-        labels[(group, feature, tr)] = collapse(failing, universe)
-    for group, feature, tr, dims, ci, pipe, aspect, trs, f0 in sorted(pending, key=lambda x: (x[0], x[1], x[2], x[3], x[4])):
-        el = cases[ci]
-        wire = ""
-        if "obs" in f0:
-            ob = f0["obs"]
-            wire = "%s %s%s hdr=%r cookie=%r body=%r" % (ob["method"], text(ob["path"]), ("?" + text(ob["query"])) if ob["query"] else "",
-                                                        text(ob["hval"]), text(ob["cookie"]), bytes(ob["body"])[:60])
-        out.violations.append(Violation(
-            "C06:%s:%s:%s:%s" % (group, labels[(group, feature, tr)][dims], feature, tr),
-            "%s not as the case says (%s): %s value %r -> case %s -> wire [%s] on %s" % (
-                aspect, f0["detail"], ":".join(dims), value_py(el["val"]), f0.get("kwargs", ""), wire, ",".join(trs)),
-            {"element": el, "pipe": pipe, "aspect": aspect.split(":")[0], "transports": trs},
-        ))
+                judged_tr.setdefault((ci, r["pipe"], a), set()).add(r["transport"])
+    emit(out, cases, results, main, [(cases[ci], r["pipe"], v) for (ci, r), v in zip(flat, verdicts) if r["pipe"] != "C2"], judged_tr)
+    emit(out, cases, results, again, [(cases[ci], "C2", v) for (ci, r), v in zip(flat, verdicts)
+                                      if r["pipe"] == "C2" and c_verdict.get((ci, r["transport"]), {}).get("param") == "T"], judged_tr, "C2")
     checked = realgen_crosscheck(ctx, rng, cases, results)
     sample_pool = [(ci, r, v) for (ci, r), v in zip(flat, verdicts) if cases[ci]["kind"] == "param" and v["param"] == "T" and value_features(cases[ci]["val"])]
     out.coverage = {
